@@ -642,7 +642,12 @@ impl Compiler {
 
                 let pos_start_function = self.instructions.len();
 
-                self.compile_block_statement(body)?;
+                // A loop around the function is not a loop inside it:
+                // stop & volgende may not jump out of the function body
+                let outer_loop_contexts = std::mem::take(&mut self.loop_contexts);
+                let result = self.compile_block_statement(body);
+                self.loop_contexts = outer_loop_contexts;
+                result?;
 
                 if self.last_instruction_is(OpCode::Pop) {
                     self.remove_last_instruction();
